@@ -65,7 +65,9 @@ func parseDepart(f []string) (dscript, bool) {
 
 var departTemplates = [][]string{
 	{"w", "rmo", "tick"},
+	{"w", "rmo", "stop"}, // removed by another member, stopped before its watch round (was K17a)
 	{"w", "self", "tick"},
+	{"rmo", "w", "stop"},
 	{"stop", "restart", "rmo", "tick"},
 	{"w", "stop", "rmo"}, // removed while down (and not started again)
 	{"rmo", "tick", "stop"},
@@ -75,10 +77,11 @@ var departTemplates = [][]string{
 	{"stop", "restart", "self", "tick"},
 }
 
-// The two situations in which the unchanged code keeps the data of a removed peer (proposed known findings K17a,
-// K17b: stopped after a removal by another member and before its watch round; started again after a removal while
-// down) are exercised by corpus/C17/depart.txt only: generated histories avoid them, so that the extended search of
-// ./check (which has no notion of a proposed finding) cannot report them in place of a new defect.
+// The one situation in which the unchanged code still keeps the data of a removed peer (known finding K17b: started
+// again after a removal while down) is exercised by corpus/C17/depart.txt only: generated histories avoid it, so that
+// the extended search of ./check cannot report it in place of a new defect. The former K17a situation (removed by another
+// member, stopped by the operator before its watch round) is repaired (/repo 3277283) and IS generated again: a revert
+// fails there with an ordinary propfail.
 func avoidKnown(leave bool, evs []string) []string {
 	running, member := true, true
 	var out []string
@@ -102,9 +105,7 @@ func avoidKnown(leave bool, evs []string) []string {
 			if !running {
 				continue
 			}
-			if !member {
-				e = "tick"
-			} else if leave {
+			if leave {
 				member = false
 			}
 			running = false
